@@ -52,6 +52,7 @@ def generate(seed, tier):
     ops = [common.gen_gv_op(rng)] if rng.random() < 0.85 else []
     w = {"edfa": 8, "gv": 2, "bad": 1, "reseed": rng.choice([0, 1, 2]), "freeze": rng.choice([0, 1])}
     kinds = [k for k, c in w.items() for _ in range(c)]
+    last_gn = None
     for _ in range(rng.randint(4, 9)):
         k = rng.choice(kinds)
         if k == "edfa":
@@ -63,10 +64,19 @@ def generate(seed, tier):
                        "BWf": rng.choice([None, None, rng.uniform(0.05, 0.45), rng.uniform(0.05, 0.45)]),
                        "BWabs": rng.choice([None, 1e9, 4e9, 10e9]), "iso": rng.random() < 0.4, "seed": rng.getrandbits(31),
                        "sdtype": rng.choice(["complex", "complex", "real"])})
+            if last_gn is not None and rng.random() < 0.4:
+                op["G"], op["NF"] = last_gn      # the same amplifier again (possibly on another grid / carrier)
+            last_gn = (op["G"], op["NF"])
             ops.append(op)
         elif k == "gv":
             ops.append(common.gen_gv_op(rng))
-            if rng.random() < 0.35:
+            prev = [o for o in ops[:-1] if o["op"] == "gv"]
+            if prev and rng.random() < 0.3:
+                # the same grid on another carrier: only the photon energy changes
+                wl0 = prev[-1]["kw"].get("wavelength", 1550e-9)
+                ops[-1] = {"op": "gv", "kw": dict(prev[-1]["kw"], wavelength=rng.choice(
+                    [w_ for w_ in common.WL_SET if w_ != wl0]))}
+            elif rng.random() < 0.35:
                 # fs given explicitly and NOT a multiple of the slot rate: the devices must use gv.fs, not sps*R
                 R_ = rng.choice([1e9, 10e9, 2.5e9])
                 ops[-1] = {"op": "gv", "kw": {"R": R_, "fs": R_ * rng.choice([2.5, 3.5, 2.6, 7.3, 12.75])}}
@@ -183,6 +193,14 @@ class Bench:
         units = z.n_units
         tripped = z.tripped + z2.tripped
         bypass = bool(tripped) or not np.array_equal(self._nz(y0, n), self._nz(y0b, n))
+        if bypass and not tripped:
+            # a draw escaping the seam makes every execution differ; a third zero twin equal to the second means the
+            # FIRST call carried something over from the history before it: keep it and let the checks below judge
+            with ScriptedRNG("zero") as z3:
+                y0c = run(x)
+            if not z3.tripped and np.array_equal(self._nz(y0c, n), self._nz(y0b, n)):
+                bypass = False
+                self.rec.probe("first zero twin differs from two identical later ones (history carried in)")
         S = _rows(sig).astype(complex)
         exp_s = np.zeros((2, n), dtype=complex)
         exp_s[:S.shape[0]] = sg * S
